@@ -195,6 +195,107 @@ proof fn lemma_cut_merge(c: Location)
         ax_skip(c.segment, li, a);
     }
 }
+
+// ------------------------------------------------------------------ skip-list construction (LinearStorage::build_skip_list)
+pub type StorageError = ClientError;
+pub const MIN_SKIP_GAP: u64 = 10;
+pub struct LinearStorage { pub _p: () }
+impl LinearStorage {
+    #[verifier::external_body]
+    pub fn get_segment(&self, l: Location) -> (r: Result<Segment, StorageError>)
+        ensures valid(l) ==> r is Ok && r->Ok_0.idx == l.segment && r->Ok_0.wf()
+    { unimplemented!() }
+    /// heuristic only (whether a nearby ancestor already has a rich skip list): any answer is sound
+    #[verifier::external_body]
+    pub fn has_nearby_rich_anchor(&self, start: Location) -> (r: Result<bool, StorageError>) { unimplemented!() }
+}
+/// skip_target_boundaries: proved for every n in unit c11_skip_targets; which targets are chosen does not matter for soundness
+#[verifier::external_body]
+fn skip_target_boundaries(n: u64) -> (r: Result<Vec<MaxCut>, StorageError>) { unimplemented!() }
+impl Segment {
+    pub fn first_location(&self) -> (r: Location) ensures r == (Location { max_cut: self.first, segment: self.idx }) { Location { max_cut: self.first, segment: self.idx } }
+}
+/// R2' helpers
+fn last_mc(v: &Vec<MaxCut>) -> (r: Option<MaxCut>) ensures v@.len() == 0 ==> r is None, v@.len() > 0 ==> r == Some(v@[v@.len() - 1])
+{ if v.len() == 0 { None } else { Some(v[v.len() - 1]) } }
+/// `iter().copied().filter(|s| s.max_cut >= lo && s.max_cut < hi).min_by_key(|s| s.max_cut)`: some entry of the list in [lo, hi) (the smallest), if any
+#[verifier::external_body]
+fn best_skip(v: &Vec<Location>, lo: MaxCut, hi: MaxCut) -> (r: Option<Location>)
+    ensures r is Some ==> lo <= r->Some_0.max_cut < hi && exists|i: int| 0 <= i < v@.len() && v@[i] == r->Some_0,
+{ unimplemented!() }
+fn contains_loc(v: &Vec<Location>, l: Location) -> (r: bool) ensures r == (exists|i: int| 0 <= i < v@.len() && v@[i] == l)
+{
+    let mut i: usize = 0;
+    while i < v.len() invariant i <= v@.len(), forall|k: int| 0 <= k < i ==> v@[k] != l, decreases v@.len() - i,
+    { if v[i] == l { return true; } i += 1; }
+    false
+}
+fn opt_to_vec(o: Option<Location>) -> (r: Vec<Location>) ensures o is None ==> r@.len() == 0, o is Some ==> r@ == seq![o->Some_0]
+{ let mut v = Vec::new(); if let Some(x) = o { v.push(x); } v }
+/// `sort_by_key(max_cut)` then `dedup()`: same elements (as a set), order changed, adjacent duplicates dropped
+#[verifier::external_body]
+fn sort_dedup(v: &mut Vec<Location>)
+    ensures forall|i: int| 0 <= i < final(v)@.len() ==> exists|j: int| 0 <= j < old(v)@.len() && old(v)@[j] == #[trigger] final(v)@[i],
+        old(v)@.len() > 0 ==> final(v)@.len() > 0,
+{ unimplemented!() }
+proof fn lemma_dom_trans(n: Location, c: Location, x: Location)
+    requires dominates(n, c), dominates(c, x) ensures dominates(n, x)
+{
+    lemma_anc_eq_trans(n, c, x);
+    if n != c { ax_anc(n, c); }
+    assert forall|a: Location| #![trigger anc_eq(a, x)] anc_eq(a, x) && a.max_cut <= n.max_cut implies anc_eq(a, n) by {
+        assert(anc_eq(a, c));
+    }
+}
+proof fn lemma_dom_refl(x: Location) ensures dominates(x, x)
+{
+    assert forall|a: Location| #![trigger anc_eq(a, x)] anc_eq(a, x) && a.max_cut <= x.max_cut implies anc_eq(a, x) by {}
+}
+/// the first command of the segment holding `c` dominates `c`
+proof fn lemma_first_dominates(c: Location)
+    requires valid(c) ensures valid(first_loc(c.segment)), dominates(first_loc(c.segment), c)
+{
+    lemma_first_is_anc_eq(c);
+    let f = first_loc(c.segment);
+    assert forall|a: Location| #![trigger anc_eq(a, c)] anc_eq(a, c) && a.max_cut <= f.max_cut implies anc_eq(a, f) by {
+        if a != c {
+            ax_anc(a, c);
+            ax_valid_range(a);
+            if a.segment == c.segment { if a != f { ax_in_segment(a, f); } }
+            else {
+                ax_cross_segment(a, c);
+                let i = choose|i: int| 0 <= i < seg_priors(c.segment).len() && anc_eq(a, #[trigger] seg_priors(c.segment)[i]);
+                ax_priors(c.segment, i);
+                lemma_anc_eq_trans(a, seg_priors(c.segment)[i], f);
+            }
+        } else {
+            ax_valid_range(c);
+        }
+    }
+}
+proof fn lemma_cut_dominates(n: Location, c: Location)
+    requires step_cut(n, c) ensures dominates(n, c)
+{
+    ax_anc(n, c);
+    assert forall|a: Location| #![trigger anc_eq(a, c)] anc_eq(a, c) && a.max_cut <= n.max_cut implies anc_eq(a, n) by {
+        assert(a != c);
+        assert(anc(a, c));
+    }
+}
+/// any skip entry of a segment, seen from the segment's first command (axiom A4 for existing segments)
+proof fn lemma_cut_skip(s: SegmentIndex, i: int)
+    requires valid(first_loc(s)), 0 <= i < seg_skips(s).len()
+    ensures valid(seg_skips(s)[i]), step_cut(seg_skips(s)[i], first_loc(s))
+{
+    ax_skip_anc(s, i);
+    assert forall|a: Location| #![trigger anc(a, first_loc(s))] anc(a, first_loc(s)) && a.max_cut <= seg_skips(s)[i].max_cut implies anc_eq(a, seg_skips(s)[i]) by {
+        ax_skip(s, i, a);
+    }
+}
+/// what the new segment's commands have as ancestors, through its prior
+pub open spec fn new_anc(a: Location, prior: Prior<Location>) -> bool {
+    match prior { Prior::None => false, Prior::Single(l) => anc_eq(a, l), Prior::Merge(l, r) => anc_eq(a, l) || anc_eq(a, r) }
+}
 '''
 
 PREVIOUS = FnSpec(M, 'previous', r'pub trait Segment\b', contract="""
@@ -314,6 +415,116 @@ LCA_N = FnSpec(B, 'last_common_ancestor', attrs='#[verifier::spinoff_prover]',
     Ok(lca)""", 1, 'R25 (try_fold over the remaining heads -> loop)'),
     ])
 
+L = 'crates/aranya-runtime/src/storage/linear/mod.rs'
+LI = r'impl<W: Write> LinearStorage<W>'
+
+WALK = FnSpec(L, 'walk_collecting_skips', LI, attrs='#[verifier::spinoff_prover]',
+    contract="""
+        requires valid(start),
+        ensures r is Ok ==> forall|i: int| 0 <= i < r->Ok_0@.len() ==> valid(#[trigger] r->Ok_0@[i]) && dominates(r->Ok_0@[i], start),
+""",
+    rewrites=[
+        ('let mut skips = vec![];', 'let mut skips: Vec<Location> = Vec::new();', 1, 'R4'),
+        ('while let Some(&t) = targets.last() {', 'while let Some(t) = last_mc(&targets)', 1, "R2' (loop header; the body follows)"),
+        ('let Some(&next_target) = targets.last() else {', 'let Some(next_target) = last_mc(&targets) else {', 1, "R2'"),
+        ("""let best = seg
+                .skip_list()
+                .iter()
+                .copied()
+                .filter(|s| s.max_cut >= next_target && s.max_cut < current.max_cut)
+                .min_by_key(|s| s.max_cut);""", 'let best = best_skip(seg.skip_list(), next_target, current.max_cut);', 1, "R2'"),
+    ],
+    inserts=[
+        ('after', 'loop', """
+            invariant
+                valid(start), valid(current), dominates(current, start),
+                forall|i: int| 0 <= i < skips@.len() ==> valid(#[trigger] skips@[i]) && dominates(skips@[i], start),
+            decreases current.max_cut,
+"""),
+        ('after', 'let seg_min = seg.shortest_max_cut();', """proof {
+                lemma_first_dominates(current);
+                lemma_dom_trans(first_loc(current.segment), current, start);
+            }"""),
+        ('after', 'while let Some(t) = last_mc(&targets)', """
+                invariant
+                    seg.idx == current.segment, seg.wf(), seg_min == seg.first,
+                    valid(first_loc(current.segment)), dominates(first_loc(current.segment), start),
+                    forall|i: int| 0 <= i < skips@.len() ==> valid(#[trigger] skips@[i]) && dominates(skips@[i], start),
+                decreases targets@.len(),
+            {"""),
+        ('before', 'current = skip;', """proof {
+                    let i = choose|i: int| 0 <= i < seg.skips@.len() && seg.skips@[i] == skip;
+                    lemma_cut_skip(current.segment, i);
+                    lemma_cut_dominates(skip, first_loc(current.segment));
+                    lemma_dom_trans(skip, first_loc(current.segment), start);
+                }"""),
+        ('before', 'match seg.prior() {', """proof {
+                if seg_priors(current.segment).len() == 1 {
+                    let p = seg_priors(current.segment)[0];
+                    lemma_cut_single(first_loc(current.segment));
+                    lemma_cut_dominates(p, first_loc(current.segment));
+                    lemma_dom_trans(p, first_loc(current.segment), start);
+                    ax_priors(current.segment, 0);
+                    ax_anc(p, first_loc(current.segment));
+                    ax_valid_range(current);
+                }
+            }"""),
+    ])
+
+BUILD = FnSpec(L, 'build_skip_list', LI, attrs='#[verifier::spinoff_prover]',
+    contract="""
+        requires
+            match prior {
+                Prior::None => true,
+                Prior::Single(l) => valid(l),
+                // the LCA handed in for a merge is what lca_pair returns: a cut of both parents
+                Prior::Merge(l, r) => valid(l) && valid(r) && last_common_ancestor is Some && valid(last_common_ancestor->Some_0)
+                    && dominates(last_common_ancestor->Some_0, l) && dominates(last_common_ancestor->Some_0, r),
+            },
+        ensures
+            // axiom A4 for the NEW segment (given A4 for the existing ones): every entry is an ancestor of the segment's
+            // commands, and every such ancestor with a max cut not above the entry's passes through the entry
+            r is Ok ==> forall|i: int| 0 <= i < r->Ok_0@.len() ==> valid(#[trigger] r->Ok_0@[i]) && new_anc(r->Ok_0@[i], prior)
+                && forall|a: Location| #![trigger new_anc(a, prior)] new_anc(a, prior) && a.max_cut <= r->Ok_0@[i].max_cut ==> anc_eq(a, r->Ok_0@[i]),
+            // a merge segment always records a skip entry (lca_pair jumps over merges through the last one; axiom ax_merge_has_lca)
+            r is Ok && prior is Merge ==> r->Ok_0@.len() > 0,
+""",
+    rewrites=[
+        ('Prior::None => return Ok(vec![]),', 'Prior::None => return Ok(Vec::new()),', 1, 'R4'),
+        ('return Ok(lca.into_iter().collect());', 'return Ok(opt_to_vec(lca));', 1, "R2' (Option -> Vec)"),
+        ("""if let Some(lca) = lca
+            && !skips.contains(&lca)
+        {
+            skips.push(lca);
+        }""", """if let Some(lca) = lca {
+            if !contains_loc(&skips, lca) {
+                skips.push(lca);
+            }
+        }""", 1, "R28 (let-chain -> nested if; Vec::contains -> verified helper)"),
+        ("""skips.sort_by_key(|loc| loc.max_cut);
+        skips.dedup();""", 'sort_dedup(&mut skips);', 1, "R2' (sort_by_key + dedup)"),
+    ],
+    inserts=[
+        ('before', 'if self.has_nearby_rich_anchor(walk_start)? || n < MIN_SKIP_GAP {', """proof {
+            lemma_dom_refl(walk_start);
+            // whatever dominates walk_start satisfies A4 for the new segment
+            assert forall|e: Location| #![trigger dominates(e, walk_start)] dominates(e, walk_start) implies
+                new_anc(e, prior) && forall|a: Location| #![trigger new_anc(a, prior)] new_anc(a, prior) && a.max_cut <= e.max_cut ==> anc_eq(a, e) by {
+                match prior {
+                    Prior::Single(l) => {}
+                    Prior::Merge(l, r) => {
+                        lemma_anc_eq_trans(e, walk_start, l);
+                        if e != walk_start { ax_anc(e, walk_start); }
+                        assert forall|a: Location| #![trigger new_anc(a, prior)] new_anc(a, prior) && a.max_cut <= e.max_cut implies anc_eq(a, e) by {
+                            assert(anc_eq(a, walk_start));
+                        }
+                    }
+                    Prior::None => {}
+                }
+            }
+        }"""),
+    ])
+
 POST = r'''
 /// R25 helper: `heads.split_first()` first element
 fn first_of(heads: &[Location]) -> (r: Option<Location>)
@@ -323,4 +534,4 @@ fn first_of(heads: &[Location]) -> (r: Option<Location>)
 
 
 def build():
-    return build_unit(PRELUDE + POST, [('impl Segment', [PREVIOUS]), (None, [LCA_PAIR, LCA_N])])
+    return build_unit(PRELUDE + POST, [('impl Segment', [PREVIOUS]), (None, [LCA_PAIR, LCA_N]), ('impl LinearStorage', [WALK, BUILD])])
